@@ -599,6 +599,30 @@ def _vmap_io(res, unit):
             core.violation(res, f'vmap-io-st|{key}',
                            'the plain-axis collection is not the per-index updates stacked along c',
                            cfg, observed=jsonable(gs), expected=jsonable(es))
+        # second call with the Out collection of the first call present among the inputs: an
+        # Out(...) collection is not lifted in, every index starts without it
+        res['evals'] += 1 + n
+        base2 = base * 2.0 + 1.0
+        x2 = base2 if iax == 0 else base2.T.copy()
+        v2 = dict(variables, memo=jax.tree.map(jnp.asarray, np_tree(updT.get('memo', {}))))
+        try:
+          _, upd2 = Vm().apply(v2, jnp.asarray(x2), mutable=mut)
+        except Exception as e:  # noqa
+          core.violation(res, f'vmap-io-second-raises|{key}', f'{type(e).__name__}: {str(e)[:200]}', cfg)
+          continue
+        memos2 = []
+        for i in range(n):
+          vi = {'tab': {'t': jnp.asarray(tab[i])}}
+          if with_st:
+            vi['st'] = {'s': jnp.asarray(st0[i])}
+          _, ui = Body().apply(vi, jnp.asarray(base2[i]), mutable=mut)
+          memos2.append(np.asarray(ui['memo']['m']))
+        gm2 = upd2.get('memo', {}).get('m')
+        if gm2 is None or canon_tree(np.asarray(gm2)) != canon_tree(np.stack(memos2, axis=b)):
+          core.violation(res, f'vmap-io-memo-second|{key}',
+                         'with the Out(b) collection of an earlier call among the inputs, the '
+                         'collection is not what the per-index calls (which never see it) produce',
+                         cfg, observed=jsonable(gm2), expected=jsonable(np.stack(memos2, axis=b)))
         core.outcome(res, f'vmap-io:ok:st={with_st}')
         res['nontrivial'].append(core.h(['vmap_io', key]))
   res['samples'].append(dict(kind='vmap_io', with_st=with_st))
